@@ -7,8 +7,8 @@ META = {
     "level": "fault_enumeration",
     "level_text": "Integrity.tla models an archive as byte regions with, per configuration, the detectors covering them (sector adler32 via read, "
                   "attributes CRC32/MD5 via SFileVerifyFile, version-4 digests, weak signature); TLC checks for every configuration x region kind x effect "
-                  "that the intended coverage map (= the code after 48c5310 / 5c764f6 / 7734a50 plus the proposed gate patch) is sound, and that each named deviation "
-                  "(legacy code: sector checksums read but not compared, failed sector decompression zero-filled; code at 7734a50: an altered sector offset table can "
+                  "that the intended coverage map (= the code since 48c5310 / 5c764f6 / 7734a50 / da9094c) is sound, and that each named deviation "
+                  "(legacy code: sector checksums read but not compared, failed sector decompression zero-filled; code at 7734a50 before da9094c: an altered sector offset table could "
                   "switch the verification of its file off) is sound exactly up to its predicted gap and violates plain soundness. Binding: for every configuration enumerated by TLC a real "
                   "archive is built with the library and altered at EVERY byte offset (flip bit 0 / bit 7 / set 00 / set FF, 4-byte zeroing, sector swaps); "
                   "after each alteration every detector of the real code is run (Archive::open, read_file, get_info md5_status/signature_status, storm-ffi "
@@ -44,7 +44,7 @@ def sig(b):
 
 def run(ctx, cases_override=None):
     ctx.mc("MC_Integrity", timeout=600)
-    # named deviations: the legacy code (before 48c5310 / 5c764f6) and the code at 7734a50 (offset-table gate)
+    # named deviations: the legacy code (before 48c5310 / 5c764f6) and the code at 7734a50 before da9094c (offset-table gate); both must be refuted
     ctx.mc("MC_Integrity", cfg="MC_Integrity_ascoded", timeout=600)
     ctx.mc("MC_Integrity", cfg="MC_Integrity_gatehole", timeout=600)
     for cfgname in ("MC_Integrity_ascoded_sound", "MC_Integrity_gatehole_sound"):
